@@ -1,1 +1,391 @@
-// harnesses for dir_entry (included into /repo/src/dir_entry.rs under cfg(kani))
+// Harnesses for src/dir_entry.rs (C04, C08, C11, C13, C14, C15, C17, C18). Included as `crate::dir_entry::verif`.
+use super::*;
+use crate::fs::verif::{mk_fs_plain, Geo};
+use crate::fs::{DiskSlice, LossyOemCpConverter};
+use crate::io::Seek;
+use crate::time::{Time, NullTimeProvider};
+use crate::verif_support::dev::{LogDev, TotDev};
+use crate::verif_support::spec;
+
+fn u16_at(b: &[u8; 32], o: usize) -> u16 { (b[o] as u16) | ((b[o + 1] as u16) << 8) }
+fn u32_at(b: &[u8; 32], o: usize) -> u32 { (u16_at(b, o) as u32) | ((u16_at(b, o + 2) as u32) << 16) }
+
+pub(crate) fn any_file_entry() -> DirFileEntryData {
+    DirFileEntryData {
+        name: kani::any(),
+        attrs: FileAttributes::from_bits_truncate(kani::any()),
+        reserved_0: kani::any(),
+        create_time_0: kani::any(),
+        create_time_1: kani::any(),
+        create_date: kani::any(),
+        access_date: kani::any(),
+        first_cluster_hi: kani::any(),
+        modify_time: kani::any(),
+        modify_date: kani::any(),
+        first_cluster_lo: kani::any(),
+        size: kani::any(),
+    }
+}
+
+/// A plain file entry with the given first cluster and size (other fields fixed), for File-level harnesses.
+pub(crate) fn file_entry(first_cluster: u32, size: u32) -> DirFileEntryData {
+    DirFileEntryData {
+        name: *b"A       TXT",
+        attrs: FileAttributes::from_bits_truncate(0x20),
+        first_cluster_lo: first_cluster as u16,
+        first_cluster_hi: (first_cluster >> 16) as u16,
+        size,
+        ..DirFileEntryData::default()
+    }
+}
+pub(crate) fn dir_entry_data(first_cluster: u32) -> DirFileEntryData {
+    DirFileEntryData {
+        name: *b"D          ",
+        attrs: FileAttributes::DIRECTORY,
+        first_cluster_lo: first_cluster as u16,
+        first_cluster_hi: (first_cluster >> 16) as u16,
+        ..DirFileEntryData::default()
+    }
+}
+pub(crate) fn editor(data: DirFileEntryData, pos: u64) -> DirEntryEditor { DirEntryEditor::new(data, pos) }
+pub(crate) fn editor_state(e: &DirEntryEditor) -> (&DirFileEntryData, u64, bool) { (&e.data, e.pos, e.dirty) }
+pub(crate) fn editor_set_dirty(e: &mut DirEntryEditor, d: bool) { e.dirty = d; }
+pub(crate) fn entry_raw_times(e: &DirFileEntryData) -> (u16, u16, u8, u16, u16, u16) {
+    (e.create_date, e.create_time_1, e.create_time_0, e.modify_date, e.modify_time, e.access_date)
+}
+pub(crate) fn entry_size_cluster(e: &DirFileEntryData) -> (u32, u16, u16) { (e.size, e.first_cluster_lo, e.first_cluster_hi) }
+
+pub(crate) fn any_valid_datetime() -> DateTime {
+    let y: u16 = kani::any();
+    let mo: u16 = kani::any();
+    let d: u16 = kani::any();
+    let h: u16 = kani::any();
+    let mi: u16 = kani::any();
+    let s: u16 = kani::any();
+    let ms: u16 = kani::any();
+    kani::assume((1980..=2107).contains(&y) && (1..=12).contains(&mo) && (1..=31).contains(&d));
+    kani::assume(h <= 23 && mi <= 59 && s <= 59 && ms <= 999);
+    DateTime::new(Date::new(y, mo, d), Time::new(h, mi, s, ms))
+}
+
+// ------------------------------------------------------------------------------------------- slot (de)serialisation (C04, C08, C17)
+
+/// C04/C08/C17: decoding ANY 32 bytes never fails or panics; every field equals the specification's offsets; the
+/// long-name / short-name classification follows the attribute byte; re-encoding reproduces the bytes (except the
+/// two undefined attribute bits); every accessor is total.
+#[kani::proof]
+#[kani::unwind(34)]
+fn slot_roundtrip() {
+    let raw: [u8; 32] = kani::any();
+    let mut dev = TotDev::<32>::new(raw);
+    let r = {
+        let mut sl = DiskSlice::<&mut TotDev<32>, TotDev<32>>::new(0, 32, 1, &mut dev);
+        DirEntryData::deserialize(&mut sl)
+    };
+    let e = match r { Ok(e) => e, Err(_) => { assert!(false); return; } };
+    let is_lfn = raw[11] & 0x0F == 0x0F;
+    let mut out = TotDev::<32>::new([0; 32]);
+    match &e {
+        DirEntryData::File(f) => {
+            assert!(!is_lfn);
+            assert!(f.name == [raw[0], raw[1], raw[2], raw[3], raw[4], raw[5], raw[6], raw[7], raw[8], raw[9], raw[10]]);
+            assert!(f.attrs.bits() == raw[11] & 0x3F);
+            assert!(f.reserved_0 == raw[12] && f.create_time_0 == raw[13]);
+            assert!(f.create_time_1 == u16_at(&raw, 14) && f.create_date == u16_at(&raw, 16) && f.access_date == u16_at(&raw, 18));
+            assert!(f.first_cluster_hi == u16_at(&raw, 20) && f.modify_time == u16_at(&raw, 22) && f.modify_date == u16_at(&raw, 24));
+            assert!(f.first_cluster_lo == u16_at(&raw, 26) && f.size == u32_at(&raw, 28));
+            // accessors (C08/C17)
+            assert!(f.is_deleted() == (raw[0] == 0xE5) && f.is_end() == (raw[0] == 0) && f.is_volume() == (raw[11] & 0x08 != 0));
+            assert!(f.is_dir() == (raw[11] & 0x10 != 0));
+            assert!(f.size() == if raw[11] & 0x10 != 0 { None } else { Some(u32_at(&raw, 28)) });
+            let lo = u16_at(&raw, 26) as u32;
+            let hi = u16_at(&raw, 20) as u32;
+            assert!(f.first_cluster(FatType::Fat32) == if (hi << 16 | lo) == 0 { None } else { Some(hi << 16 | lo) });
+            assert!(f.first_cluster(FatType::Fat16) == if lo == 0 { None } else { Some(lo) });   // high word ignored
+            assert!(f.first_cluster(FatType::Fat12) == f.first_cluster(FatType::Fat16));
+            let _ = (f.created(), f.modified(), f.accessed());
+            let _ = ShortName::new(f.name());
+            assert!(f.serialize(&mut out).is_ok());
+            kani::cover!(raw[0] == 0xE5);
+            kani::cover!(raw[11] & 0xC0 != 0);
+            kani::cover!(hi != 0);
+        }
+        DirEntryData::Lfn(l) => {
+            assert!(is_lfn);
+            assert!(l.order == raw[0] && l.entry_type == raw[12] && l.checksum == raw[13] && l.reserved_0 == u16_at(&raw, 26));
+            let mut part = [0u16; 13];
+            l.copy_name_to_slice(&mut part);
+            let i: usize = kani::any();
+            kani::assume(i < 13);
+            assert!(part[i] == spec::lfn_unit(&raw, i));
+            assert!(l.is_deleted() == (raw[0] == 0xE5) && l.is_end() == (raw[0] == 0));
+            assert!(l.serialize(&mut out).is_ok());
+            kani::cover!(raw[0] & 0x40 != 0);
+        }
+    }
+    assert!(!out.oob && out.pos == 32);
+    let k: usize = kani::any();
+    kani::assume(k < 32);
+    if k == 11 { assert!(out.data[11] == raw[11] & 0x3F); } else { assert!(out.data[k] == raw[k]); }
+}
+
+/// C08/C17: short-name decoding of ANY 11 bytes: base trimmed of trailing spaces, dot only with a non-empty
+/// extension, 0x05 lead byte means 0xE5, length <= 12; never panics.
+#[kani::proof]
+#[kani::unwind(14)]
+fn short_name_decode() {
+    let raw: [u8; 11] = kani::any();
+    let sn = ShortName::new(&raw);
+    let mut bl = 8;
+    while bl > 0 && raw[bl - 1] == b' ' { bl -= 1; }
+    let mut el = 3;
+    while el > 0 && raw[8 + el - 1] == b' ' { el -= 1; }
+    let exp_len = if el > 0 { bl + 1 + el } else { bl };
+    let got = sn.as_bytes();
+    assert!(got.len() == exp_len && exp_len <= 12);
+    let i: usize = kani::any();
+    kani::assume(i < exp_len);
+    let exp = if i < bl { if i == 0 && raw[0] == 0x05 { 0xE5 } else { raw[i] } } else if i == bl { b'.' } else { raw[8 + (i - bl - 1)] };
+    assert!(got[i] == exp);
+    kani::cover!(bl == 0 && el == 3);
+    kani::cover!(raw[0] == 0x05 && bl > 0);
+    kani::cover!(bl == 8 && el == 0);
+}
+
+/// C08: the lower-case flags of a short-name-only entry (bits 3 and 4 of the reserved byte) affect base and
+/// extension independently and only ASCII letters.
+#[cfg(feature = "alloc")]
+#[kani::proof]
+#[kani::unwind(14)]
+fn lowercase_flags() {
+    let mut e = any_file_entry();
+    let flags: u8 = kani::any();
+    e.reserved_0 = flags;
+    let raw = e.name;
+    let sn = e.lowercase_name();
+    let mut adj = raw;
+    let mut i = 0;
+    while i < 11 {
+        let lower = if i < 8 { flags & 0x08 != 0 } else { flags & 0x10 != 0 };
+        if lower && adj[i] >= b'A' && adj[i] <= b'Z' { adj[i] += 32; }
+        i += 1;
+    }
+    let reference = ShortName::new(&adj);
+    assert!(sn.as_bytes().len() == reference.as_bytes().len());
+    let k: usize = kani::any();
+    kani::assume(k < sn.as_bytes().len());
+    assert!(sn.as_bytes()[k] == reference.as_bytes()[k]);
+    kani::cover!(flags & 0x18 == 0x08 && raw[0] == b'Q' && raw[8] == b'Z');
+}
+
+// ------------------------------------------------------------------------------------------- timestamps (C18)
+
+/// C18: explicit timestamps survive set -> (serialize -> deserialize = reopen) -> get at the documented resolutions
+/// (creation 10 ms, modification 2 s, access one day) for every representable date and time.
+#[kani::proof]
+#[kani::unwind(34)]
+fn entry_time_fields() {
+    let mut e = any_file_entry();
+    kani::assume(e.attrs.bits() & 0x0F != 0x0F);
+    let c = any_valid_datetime();
+    let m = any_valid_datetime();
+    let a = any_valid_datetime().date;
+    let before = e.clone();
+    e.set_created(c);
+    e.set_modified(m);
+    e.set_accessed(a);
+    // reopen: what is on disk is what serialize writes
+    let mut dev = TotDev::<32>::new([0; 32]);
+    assert!(e.serialize(&mut dev).is_ok());
+    dev.pos = 0;
+    let back = {
+        let mut sl = DiskSlice::<&mut TotDev<32>, TotDev<32>>::new(0, 32, 1, &mut dev);
+        DirEntryData::deserialize(&mut sl)
+    };
+    let f = match back { Ok(DirEntryData::File(f)) => f, _ => { assert!(false); return; } };
+    let cr = f.created();
+    assert!(cr.date == c.date && cr.time.hour == c.time.hour && cr.time.min == c.time.min && cr.time.sec == c.time.sec
+            && cr.time.millis == c.time.millis / 10 * 10);
+    let mo = f.modified();
+    assert!(mo.date == m.date && mo.time.hour == m.time.hour && mo.time.min == m.time.min && mo.time.sec == m.time.sec / 2 * 2
+            && mo.time.millis == 0);
+    assert!(f.accessed() == a);
+    // nothing else in the entry moved
+    assert!(f.name == before.name && f.attrs == before.attrs && f.size == before.size && f.reserved_0 == before.reserved_0
+            && f.first_cluster_lo == before.first_cluster_lo && f.first_cluster_hi == before.first_cluster_hi);
+    kani::cover!(c.time.sec % 2 == 1 && c.time.millis == 990 && c.date.year > 2043);
+    kani::cover!(m.time.hour >= 16);
+}
+
+/// C18: a rename keeps every field of the entry body (timestamps, size, cluster, attributes); only the name changes.
+#[kani::proof]
+#[kani::unwind(14)]
+fn renamed_keeps_body() {
+    let e = any_file_entry();
+    let new_name: [u8; 11] = kani::any();
+    let r = e.renamed(new_name);
+    assert!(r.name == new_name);
+    assert!(r.attrs == e.attrs && r.reserved_0 == e.reserved_0 && r.create_time_0 == e.create_time_0 && r.create_time_1 == e.create_time_1
+            && r.create_date == e.create_date && r.access_date == e.access_date && r.first_cluster_hi == e.first_cluster_hi
+            && r.modify_time == e.modify_time && r.modify_date == e.modify_date && r.first_cluster_lo == e.first_cluster_lo && r.size == e.size);
+}
+
+// ------------------------------------------------------------------------------------------- editor (C11, C13, C14, C18)
+
+/// C11/C13/C14: DirEntryEditor::flush writes exactly the 32 bytes of the entry at its recorded position when (and
+/// only when) something changed, then clears the latch; setters set the latch exactly when the stored value changes.
+#[kani::proof]
+#[kani::unwind(34)]
+fn editor_flush_writes_entry_once() {
+    let data = any_file_entry();
+    let pos: u64 = kani::any();
+    kani::assume(pos <= (1u64 << 43));
+    let g = Geo::small(FatType::Fat16, 6);
+    let fs = core::mem::ManuallyDrop::new(mk_fs_plain(LogDev::new(u64::MAX), &g, NullTimeProvider::new(), false));
+    let mut ed = DirEntryEditor::new(data.clone(), pos);
+    assert!(!ed.dirty);
+    // setters
+    let new_size: u32 = kani::any();
+    ed.set_size(new_size);
+    let size_changes = data.size().map_or(false, |s| s != new_size);
+    assert!(ed.dirty == size_changes);
+    assert!(ed.data.size == if size_changes { new_size } else { data.size });
+    let dt = any_valid_datetime();
+    let dirty_before_time = ed.dirty;
+    ed.set_modified(dt);
+    assert!(ed.dirty == (dirty_before_time || dt != data.modified()));
+    let was_dirty = ed.dirty;
+    let watch: u64 = kani::any();
+    kani::assume(watch >= pos && watch < pos + 32);
+    fs.disk.borrow_mut().watch_addr = watch;
+    fs.disk.borrow_mut().watch_val = 0x5A;
+    assert!(ed.flush(&*fs).is_ok());
+    {
+        let d = fs.disk.borrow();
+        if was_dirty {
+            // a sequence of contiguous small writes covering exactly [pos, pos+32)
+            assert!(!d.overflow || d.total_writes == 12);
+            assert!(d.total_writes == 12 && d.w_off[0] == pos && d.max_end == pos + 32);
+            let mut img = TotDev::<32>::new([0; 32]);
+            assert!(ed.data.serialize(&mut img).is_ok());
+            assert!(d.watch_val == img.data[(watch - pos) as usize]);
+        } else {
+            assert!(d.total_writes == 0 && d.watch_val == 0x5A);
+        }
+        assert!(d.flushes == 0);
+    }
+    assert!(!ed.dirty);
+    // a second flush writes nothing
+    let w = fs.disk.borrow().total_writes;
+    assert!(ed.flush(&*fs).is_ok());
+    assert!(fs.disk.borrow().total_writes == w);
+    kani::cover!(was_dirty && !size_changes);
+    kani::cover!(!was_dirty);
+}
+
+/// C02/C04: set_first_cluster stores the high word only on FAT32 and marks the entry dirty only on change.
+#[kani::proof]
+#[kani::unwind(14)]
+fn editor_first_cluster() {
+    let data = any_file_entry();
+    let sel: u8 = kani::any();
+    let ft = match sel % 3 { 0 => FatType::Fat12, 1 => FatType::Fat16, _ => FatType::Fat32 };
+    let mut ed = DirEntryEditor::new(data.clone(), 0);
+    let c: Option<u32> = kani::any();
+    if let Some(x) = c {
+        kani::assume(x >= 2 && x <= 0x0FFF_FFF6);
+        if ft != FatType::Fat32 { kani::assume(x < 0xFFF7); }
+    }
+    ed.set_first_cluster(c, ft);
+    assert!(ed.data.first_cluster(ft) == c);
+    assert!(ed.dirty == (data.first_cluster(ft) != c));
+    if ft != FatType::Fat32 { assert!(ed.data.first_cluster_hi == data.first_cluster_hi); }
+    kani::cover!(ft == FatType::Fat32 && matches!(c, Some(x) if x > 0xFFFF));
+    kani::cover!(c.is_none() && ed.dirty);
+}
+
+// ------------------------------------------------------------------------------------------- name comparison (C15, C19)
+
+#[cfg(all(feature = "alloc", feature = "lfn"))]
+fn mk_entry<'a>(fs: &'a crate::fs::verif::Fs<LogDev, NullTimeProvider>, sfn: [u8; 11], lfn: &[u16]) -> DirEntry<'a, LogDev, NullTimeProvider, LossyOemCpConverter> {
+    DirEntry {
+        data: DirFileEntryData::new(sfn, FileAttributes::from_bits_truncate(0)),
+        short_name: ShortName::new(&sfn),
+        lfn_utf16: crate::dir::verif::lfn_buffer_from(lfn),
+        entry_pos: 0,
+        offset_range: (0, 0),
+        fs,
+    }
+}
+
+fn ascii_upper(b: u8) -> u8 { if b >= b'a' && b <= b'z' { b - 32 } else { b } }
+
+/// C15/C19: for ASCII names, lookup matches exactly the names that equal the stored long name or the stored short
+/// alias ignoring ASCII case, and nothing else (same in every build: char_to_uppercase is ASCII-exact below 0x80).
+#[cfg(all(feature = "alloc", feature = "lfn"))]
+#[kani::proof]
+#[kani::unwind(14)]
+fn eq_name_ascii() {
+    let g = Geo::small(FatType::Fat16, 6);
+    let fs = core::mem::ManuallyDrop::new(mk_fs_plain(LogDev::new(u64::MAX), &g, NullTimeProvider::new(), false));
+    // stored long name: 2 ASCII units; stored alias: 2-byte base, no extension; query: 1 or 2 ASCII bytes
+    let l: [u8; 2] = kani::any();
+    kani::assume(l[0] < 0x80 && l[1] < 0x80 && l[0] != 0 && l[1] != 0);
+    let units = [l[0] as u16, l[1] as u16];
+    let s: [u8; 2] = kani::any();
+    kani::assume(s[0] < 0x80 && s[1] < 0x80 && s[0] != b' ' && s[1] != b' ' && s[0] != 0x05);
+    let mut sfn = [b' '; 11];
+    sfn[0] = s[0];
+    sfn[1] = s[1];
+    let e = core::mem::ManuallyDrop::new(mk_entry(&*fs, sfn, &units));
+    let q: [u8; 2] = kani::any();
+    let ql: usize = kani::any();
+    kani::assume(ql >= 1 && ql <= 2 && q[0] < 0x80 && q[1] < 0x80);
+    let name = unsafe { core::str::from_utf8_unchecked(&q[..ql]) };
+    let got = e.eq_name(name);
+    let eq_l = ql == 2 && ascii_upper(q[0]) == ascii_upper(l[0]) && ascii_upper(q[1]) == ascii_upper(l[1]);
+    let eq_s = ql == 2 && ascii_upper(q[0]) == ascii_upper(s[0]) && ascii_upper(q[1]) == ascii_upper(s[1]);
+    assert!(got == (eq_l || eq_s));
+    kani::cover!(got && eq_l && !eq_s && q[0] != l[0]);   // matched the long name through case folding only
+    kani::cover!(got && eq_s && !eq_l);
+    kani::cover!(!got && ql == 2);
+    kani::cover!(!got && ql == 1);                          // a prefix is not a match
+}
+
+/// C19: below 0x80 the case-folding helper is exactly ASCII upper-casing (one char out), in every build.
+#[kani::proof]
+#[kani::unwind(6)]
+fn upper_ascii_agree() {
+    let b: u8 = kani::any();
+    kani::assume(b < 0x80);
+    let mut it = char_to_uppercase(b as char);
+    assert!(it.next() == Some(ascii_upper(b) as char));
+    assert!(it.next().is_none());
+}
+#[kani::proof]
+#[kani::unwind(14)]
+fn exp_sn_eq() {
+    let s: [u8; 2] = kani::any();
+    kani::assume(s[0] < 0x80 && s[1] < 0x80 && s[0] != b' ' && s[1] != b' ' && s[0] != 0x05);
+    let mut sfn = [b' '; 11];
+    sfn[0] = s[0];
+    sfn[1] = s[1];
+    let q: [u8; 2] = kani::any();
+    kani::assume(q[0] < 0x80 && q[1] < 0x80);
+    let name = unsafe { core::str::from_utf8_unchecked(&q[..2]) };
+    let got = ShortName::new(&sfn).eq_ignore_case(name, &LossyOemCpConverter::new());
+    assert!(got == (ascii_upper(q[0]) == ascii_upper(s[0]) && ascii_upper(q[1]) == ascii_upper(s[1])));
+}
+#[cfg(all(feature = "alloc", feature = "lfn"))]
+#[kani::proof]
+#[kani::unwind(14)]
+fn exp_eq_conc() {
+    let g = Geo::small(FatType::Fat16, 6);
+    let fs = core::mem::ManuallyDrop::new(mk_fs_plain(LogDev::new(u64::MAX), &g, NullTimeProvider::new(), false));
+    let e = core::mem::ManuallyDrop::new(mk_entry(&*fs, *b"XY         ", &[b'A' as u16, b'b' as u16]));
+    let q: [u8; 2] = kani::any();
+    kani::assume(q[0] < 0x80 && q[1] < 0x80);
+    let name = unsafe { core::str::from_utf8_unchecked(&q[..2]) };
+    let got = e.eq_name(name);
+    assert!(got == ((ascii_upper(q[0]) == b'A' && ascii_upper(q[1]) == b'B') || (ascii_upper(q[0]) == b'X' && ascii_upper(q[1]) == b'Y')));
+}
